@@ -104,9 +104,7 @@ Definition peer_offline (b : broker) (p : N) (t : Z) : broker :=
   | Some _ =>
     let ks := subs_of (bk_state b) p in
     BK (bk_name b)
-       (* NotifyUnsubscribe overwrites ev.Peer with our own id before Swarm deletes the event: the
-          tombstone lands on (ourselves, conn, ssid), the dead peer's entries stay as they are *)
-       (fold_left (fun st k => lww_del st (mk_key (bk_name b) (k_conn k) (k_ssid k)) t t) ks (bk_state b))
+       (bk_state b)      (* the peer's entries stay: only it can tell what became of its clients *)
        (member_del (bk_members b) p)
        (fold_left (fun r k => set_del (k_ssid k, p) r) ks (bk_remote b))
        (bk_local b)
@@ -215,7 +213,12 @@ Definition step (w : world) (e : ev) : world :=
     let w1 := set_broker w (peer_offline (get_broker w b) p t) in
     let w2 := upd_link (upd_link w1 b p (fun _ => LK b p GNone None)) p b (fun _ => LK p b GNone None) in
     flag w2 false true false false false
-  | EOnline a b => link_send_live (link_send_live w a b) b a
+  | EOnline a b =>
+    (* the periodic update of each side sees the other again (peerSeen: findPeer, Touch), and the new
+       connection makes both queue their complete state *)
+    let w1 := set_broker w (find_peer (get_broker w a) b) in
+    let w2 := set_broker w1 (find_peer (get_broker w1 b) a) in
+    link_send_live (link_send_live w2 a b) b a
   end.
 
 Definition world0 (ns : list N) : world :=
